@@ -18,13 +18,14 @@ CONSTANTS Cats,        \* categories (may be string prefixes of one another, may
           Limits,      \* subset of Nat; 0 stands for "no limit"
           Randoms,     \* subset of BOOLEAN: ordered / random listing
           Ops,         \* subset of {"get","getmeta","unknown","list","default","mutate","resave"}
+          Probes,      \* subset of BOOLEAN: is the id looked up (get / get-metadata) between create and save?
           MaxSaves, MaxQueries,
           Population   \* sequence of [cat, meta] already saved in the initial state
 
 VARIABLES saved, nq, ev
 vars == <<saved, nq, ev>>
 
-Ev0 == [kind |-> "init", cat |-> "", id |-> 0, filter |-> "", limit |-> 0, random |-> FALSE, matches |-> {},
+Ev0 == [kind |-> "init", cat |-> "", id |-> 0, filter |-> "", limit |-> 0, random |-> FALSE, matches |-> {}, probed |-> FALSE,
         count |-> 0, unknown |-> "", meta |-> [k1 |-> Absent, k2 |-> Absent, inc |-> Absent]]
 
 FilterDef(name) ==
@@ -46,10 +47,12 @@ Init == /\ saved = Population
         /\ nq = 0
         /\ ev = Ev0
 
-Save(cat, m) ==
+\* create + fill + save; with `probe' the freshly minted id is looked up through the saving cassette before the save
+\* (it is unknown then: nothing is stored until save) and again right after it (it is stored now)
+Save(cat, m, probe) ==
     /\ Len(saved) < MaxSaves
     /\ saved' = Append(saved, [cat |-> cat, meta |-> m])
-    /\ ev' = [Ev0 EXCEPT !.kind = "save", !.cat = cat, !.meta = m, !.id = Len(saved) + 1]
+    /\ ev' = [Ev0 EXCEPT !.kind = "save", !.cat = cat, !.meta = m, !.id = Len(saved) + 1, !.probed = probe]
     /\ UNCHANGED nq
 
 Query(k, i) ==
@@ -98,7 +101,7 @@ ListDefault(cat, withUser, limit) ==
     /\ UNCHANGED saved
 
 Next ==
-    \/ \E c \in Cats, m \in Metas : Save(c, m)
+    \/ \E c \in Cats, m \in Metas, p \in Probes : Save(c, m, p)
     \/ \E k \in Ops, i \in 1 .. MaxSaves : Query(k, i)
     \/ \E u \in {"fresh", "prefix", "extension", "othercat"} : GetUnknown(u)
     \/ \E i \in 1 .. MaxSaves : Resave(i)
